@@ -59,6 +59,7 @@ def jobs(tier, seed):
                     'cost': 60, 'tier': tier})
     out.append({'name': 'make_segment-lengths', 'kind': 'seg', 'cost': 40})
     out.append({'name': 'prepare_data-bookkeeping', 'kind': 'prep', 'cost': 40})
+    out.append({'name': 'written-stream==estimated-length', 'kind': 'stream', 'cost': 40, 'tier': tier})
     return out
 
 
@@ -71,6 +72,8 @@ def run_job(spec):
         return job_enc(res, L_, [tuple(p) for p in spec['parts']], spec['tier'])
     if spec['kind'] == 'prep':
         return job_prep(res, L_)
+    if spec['kind'] == 'stream':
+        return job_stream(res, L_.encoder, L_.consts, part_lists(spec['tier']) + ALIAS_LISTS)
     return job_seg(res, L_)
 
 
@@ -334,10 +337,83 @@ def job_prep(res, L_):
     return res.as_dict()
 
 
+ALIAS_LISTS = [[('byte', 'latin1')], [('byte', 'ISO-8859-1')], [('byte', 'L1'), ('numeric', None), ('byte', 'L1')], [('byte', 'UTF8')], [('byte', 'utf_8'), ('kanji', None)]]
+
+
+class _Stop(Exception):
+    pass
+
+
+def stream_lengths(enc, consts, parts, v, error, eci, sa):
+    """(bits the real _encode has written when it reaches the terminator, bits the real estimator counts)"""
+    segs = enc.Segments()
+    for mode, encoding in parts:
+        mc = S.mode_const(consts, mode)
+        nb = {'numeric': 4, 'alphanumeric': 6, 'byte': 8}.get(mode, 13)
+        segs.add_segment(enc._Segment((0,) * nb, 1, mc, (encoding or consts.DEFAULT_BYTE_ENCODING) if mode == 'byte' else None))
+    seen = []
+    real = enc.write_terminator
+
+    def stop(buff, capacity, ver, length):
+        seen.append((len(buff), length))
+        raise _Stop()
+    enc.write_terminator = stop
+    try:
+        sa_info = enc._StructuredAppendInfo(0, 1, 7) if sa else None
+        try:
+            enc._encode(segs, S.level_const(consts, error), v, None, eci, False, sa_info)
+        except _Stop:
+            pass
+    finally:
+        enc.write_terminator = real
+    return seen[0][0], seen[0][1], segs.bit_length_with_overhead(v, eci, is_sa=sa), len(segs.segments)
+
+
+def job_stream(res, enc, consts, lists):
+    """the estimator that chooses the version and the writer must agree: for every mode list, version, eci and Structured
+    Append flag the number of bits the real _encode has written before the terminator == bit_length_with_overhead (the number
+    find_version / boost_error_level compare with the capacity) - otherwise a symbol is chosen that the stream overruns"""
+    for parts in lists:
+        for v in T.VERSIONS:
+            if not all(T.mode_supported(m, v) for m, _ in parts) or (v < 1 and any(m == 'hanzi' for m, _ in parts)):
+                continue
+            for eci in (False, True):
+                for sa in (False, True):
+                    if v < 1 and (eci or sa):
+                        continue
+                    error = None if v == T.M1 else 'L'
+                    inp = {'fn': 'stream', 'parts': parts, 'v': v, 'error': error, 'eci': eci, 'sa': sa}
+                    try:
+                        written, passed, counted, nseg = stream_lengths(enc, consts, parts, v, error, eci, sa)
+                    except Exception as e:
+                        res.concrete('written-stream==estimated-length', False, lambda e=e, inp=inp: res.violation('stream-estimate', f'{type(e).__name__}: {e}', inp))
+                        continue
+                    res.concrete('written-stream==estimated-length', written == counted == passed,
+                                 lambda inp=inp, w=written, c=counted: res.violation('stream-estimate', f'{w} bits written, {c} bits counted when the version was chosen', inp))
+                    if nseg == len(parts) and all(e in (None, 'utf-8', 'shift_jis') for _, e in parts):
+                        iso = S.needed_bits(parts, v, sum({'numeric': 4, 'alphanumeric': 6, 'byte': 8}.get(m, 13) for m, _ in parts), eci, sa)
+                        res.concrete('written-stream==ISO-header-widths', written == iso,
+                                     lambda inp=inp, w=written, i=iso: res.violation('stream-estimate', f'{w} bits written, ISO header widths give {i}', inp))
+    res.paths = 0
+    res.sample({'case': 'written stream == estimated length', 'mode lists': len(lists), 'versions': 'all 44', 'flags': 'eci, Structured Append'})
+    return res.as_dict()
+
+
 def replay(viol):
     import segno.encoder as enc
     from segno import consts
     inp = viol['input']
+    if inp['fn'] == 'stream':
+        parts = [tuple(p) for p in inp['parts']]
+        try:
+            written, passed, counted, nseg = stream_lengths(enc, consts, parts, inp['v'], inp['error'], inp['eci'], inp['sa'])
+        except Exception as e:
+            return True, f'{type(e).__name__}: {e}'
+        bad = not (written == counted == passed)
+        if not bad and 'ISO' in viol.get('desc', ''):
+            iso = S.needed_bits(parts, inp['v'], sum({'numeric': 4, 'alphanumeric': 6, 'byte': 8}.get(m, 13) for m, _ in parts), inp['eci'], inp['sa'])
+            bad = written != iso
+        return bad, f'_encode wrote {written} bits before the terminator, bit_length_with_overhead = {counted} ({parts}, version {inp["v"]}, eci={inp["eci"]}, sa={inp["sa"]})'
     if inp['fn'] == 'prepare':
         parts = [bytes(x) for x in inp['parts']]
         try:
